@@ -425,6 +425,8 @@ Proof.
     destruct (msgvalfmt_typeid f); [reflexivity|reflexivity|congruence].
   - split; [exact I|]. reflexivity.
   - split; [exact I|]. cbn [sstep]. rewrite sweep_refines by assumption. reflexivity.
+  - split; [exact I|]. cbn [sstep op_wf] in *. rewrite wrap_refines by assumption.
+    destruct (t <? 0)%Z; reflexivity.
 Qed.
 
 (* ---------- every history ---------- *)
